@@ -13,7 +13,7 @@ CLAUSES = {
     "C06": {"toc_sync", "no_empty_bookkeeping_groups", "meta_follows_reference", "uuids_stable", "index_eq_rebuild",
             "failed_op_changes_nothing", "schema_record_complete", "state_observable", "container_identity_stable"},
     "C07": {"query_exact", "get_returns_stored", "get_found_iff_matches", "ancestor_view_valid", "ok_matches_reference",
-            "state_observable", "parent_path_is_class_chain"},
+            "state_observable", "parent_path_is_class_chain", "held_handles_current"},
     "C08": {"user_view_is_plain_tree", "listings_consistent", "reserved_rejected_without_effect",
             "no_unexpected_reserved_nodes", "tree_is_apply_of_reference", "state_observable"},
     "C09": {"ok_matches_reference", "tree_is_apply_of_reference", "meta_follows_reference", "drivers_agree",
